@@ -37,17 +37,18 @@ ASSUMPTIONS = [
     "tolerance 1e-9 + 4e-16/|denominator| (DESIGN 2.3); they are not 'valid' inputs of the property",
     "both annotations have exactly equal end times (np.allclose-equal but different ends are outside the model)",
     "AMI's expected-MI term: the model's transliterated loop is proved equal (over the reals) to the hypergeometric "
-    "expectation with binomial coefficients (emi_textbook); the oracle re-computes that expectation independently "
-    "from exact hypergeometric probabilities",
+    "expectation with binomial coefficients (emi_textbook); the weights over the loop's range plus the k = 0 weight "
+    "sum to 1 (hypergeometric_weights_sum_one, Vandermonde), so the loop is the expectation over the whole support "
+    "(emi_is_hypergeometric_expectation); the oracle re-computes that expectation independently from exact "
+    "hypergeometric probabilities",
 ]
 UNPROVED = [
     "the textbook forms of the entropy-based scores (entropy_textbook, nmi_textbook, nce_textbook, v_textbook, "
     "emi_textbook, ami_textbook) are theorems about the model at the real-number instance; that binary64 "
     "evaluation of the same expressions stays within 1e-9 of the real value is compared, not proved",
-    "the hypergeometric weights in emi_textbook are not proved to sum to 1 (Vandermonde) - not needed for the "
-    "equality of the code's loop with the textbook expectation",
-    "frames_are_labelAt (proved for contiguous segmentations starting at or before 0; with gaps: frames_carry_labelAt "
-    "wherever the annotation has a label) reads the frame times as the exact rationals i*frame_size; that numpy's "
+    "frames_are_labelAt (contiguous segmentations starting at or before 0) and frames_with_gaps (any sorted "
+    "non-overlapping annotation: labelAt completed by the label of a row ending exactly at the frame time, else None) "
+    "read the frame times as the exact rationals i*frame_size; that numpy's "
     "binary64 arange(n)*frame_size and searchsorted land on the same side of every boundary is compared on the "
     "exact lattice and the decimal stream, not proved",
 ]
